@@ -67,7 +67,7 @@ def run_variant(v) -> dict:
                     compile((tmp / e[0]).read_text(), e[0], "exec")
             except SyntaxError as ex:
                 return dict(id=v["id"], status="broken-variant", why=str(ex))
-        env = dict(os.environ, CODELIMIT_REPO=str(tmp), VERIF_EVIDENCE_DIR=str(tmp / "ev"),
+        env = dict(os.environ, CODELIMIT_REPO=str(tmp), VERIF_EVIDENCE_DIR=str(tmp / "ev"), VERIF_JOBS="2",
                    VERIF_NO_SELFTEST="1", VERIF_QUIET="1")
         r = subprocess.run([PY, str(HERE / "check.py"), v["prop"], "--tier", "quick", "--repo", str(tmp)],
                            capture_output=True, text=True, env=env, timeout=300)
